@@ -87,3 +87,31 @@ Proof.
   - unfold sumZ, default_rc; cbn [gnodes]. rewrite (sumL_map dQ strip0). apply sumL_ext_in. intros; reflexivity.
   - intros k a I. unfold default_rc in I; simpl in I. apply in_map_iff in I. destruct I as ([k0 a0] & E & _). inversion E; subst. split; reflexivity.
 Qed.
+
+(** * the limitation as a refuted clause: with a template that writes a hydrogen change implicitly (thioester formation,
+      [SH] -> [S], [OH] -> [OH2]) the default-mode rule does not apply that change — a matched atom of the proposed
+      ITS has a hydrogen-count change different from its template atom's *)
+Definition rf_tpl : its :=
+  LG [(2%N, IN (NA 83%N false 1 0 []) (NA 83%N false 0 0 []) 0 None); (4%N, IN (NA 67%N false 0 0 []) (NA 67%N false 0 0 []) 0 None);
+      (6%N, IN (NA 79%N false 1 0 []) (NA 79%N false 2 0 []) 0 None)]
+     [(2%N, 4%N, (0, 2, -2)); (4%N, 6%N, (2, 0, 2))].
+Definition rf_host : hostg :=
+  LG [(1%N, NA 67%N false 3 0 []); (2%N, NA 83%N false 1 0 []); (3%N, NA 67%N false 3 0 []); (4%N, NA 67%N false 0 0 []);
+      (5%N, NA 79%N false 0 0 []); (6%N, NA 79%N false 1 0 [])]
+     [(1%N, 2%N, 2); (3%N, 4%N, 2); (4%N, 5%N, 4); (4%N, 6%N, 2)].
+Definition rf_m : mapping := [(2%N, 2%N); (4%N, 4%N); (6%N, 6%N)].
+Definition rf_rc : its := default_rc rf_tpl.
+Definition rf_T : its := match glue rf_host rf_rc rf_m with Some t => t | None => LG [] [] end.
+
+Lemma default_mode_implicit_template_refuted :
+  exists (tpl rc : its) (l r : molg) (host : hostg) (m : mapping) (T : its) (p h : N) (pn a : inode),
+    balancedb tpl = true /\ synrule tpl true = Some (rc, l, r) /\
+    wf_hostb host = true /\ wf_rcb rc = true /\ match_rcb host rc m = true /\ glue host rc m = Some T /\
+    In (p, pn) (gnodes tpl) /\ mget m p = Some h /\ label T h = Some a /\ dH a <> dH pn.
+Proof.
+  exists rf_tpl, rf_rc, (match synrule rf_tpl true with Some t => snd (fst t) | None => LG [] [] end),
+         (match synrule rf_tpl true with Some t => snd t | None => LG [] [] end), rf_host, rf_m, rf_T, 2%N, 2%N,
+         (IN (NA 83%N false 1 0 []) (NA 83%N false 0 0 []) 0 None),
+         (match label rf_T 2%N with Some a => a | None => H_inode end).
+  vm_compute. repeat split; try reflexivity; try (left; reflexivity). discriminate.
+Qed.
